@@ -201,14 +201,15 @@ theorem wf_of_wfb (t : Tree) (h : wfb t = true) : WF t := by
 structure Grows (a b : TState) : Prop where
   tree : b.tree = a.tree
   le : Le a.s b.s
+  unwired : b.unwired = a.unwired
 
-theorem Grows.refl (a : TState) : Grows a a := ⟨rfl, Le.refl _⟩
+theorem Grows.refl (a : TState) : Grows a a := ⟨rfl, Le.refl _, rfl⟩
 
 theorem Grows.trans {a b c : TState} (h1 : Grows a b) (h2 : Grows b c) : Grows a c :=
-  ⟨h2.tree.trans h1.tree, h1.le.trans h2.le⟩
+  ⟨h2.tree.trans h1.tree, h1.le.trans h2.le, h2.unwired.trans h1.unwired⟩
 
 theorem grows_touchT (ts : TState) (x : Nat) : Grows ts (touchT ts x) :=
-  ⟨rfl, le_touch _ _ _⟩
+  ⟨rfl, le_touch _ _ _, rfl⟩
 
 theorem grows_foldl {α : Type} (f : TState → α → TState) (hf : ∀ ts a, Grows ts (f ts a)) (l : List α) (ts : TState) :
     Grows ts (l.foldl f ts) := by
@@ -222,8 +223,10 @@ theorem grows_relayTo (ts : TState) (ns : List Nat) (tgt : Nat) : Grows ts (rela
   | cons n r ih =>
     unfold relayTo
     split
-    · exact ⟨rfl, Le.refl _⟩
-    · exact ih ts
+    · exact ⟨rfl, Le.refl _, rfl⟩
+    · split
+      · exact Grows.refl ts
+      · exact ih ts
 
 theorem grows_repost (ts : TState) (d : Deferred) : Grows ts (repost ts d) := grows_relayTo ts d.rest d.target
 
@@ -266,16 +269,22 @@ structure Extends (recv : Nat) (a b : TState) : Prop where
   le : Le a.s b.s
   deferred : b.deferred = a.deferred
   hits : b.hits = a.hits
+  /-- only new objects can be layers the font does not listen to yet -/
+  unwired : ∀ n, n ∈ b.unwired → n ∈ a.unwired ∨ a.tree.length ≤ n
 
 theorem Extends.refl (recv : Nat) (a : TState) : Extends recv a a :=
-  ⟨Nat.le_refl _, fun _ _ => rfl, fun h _ => h, Le.refl _, rfl, rfl⟩
+  ⟨Nat.le_refl _, fun _ _ => rfl, fun h _ => h, Le.refl _, rfl, rfl, fun _ h => Or.inl h⟩
 
 theorem Extends.trans {recv : Nat} {a b c : TState} (h1 : Extends recv a b) (h2 : Extends recv b c)
     (hw : WF a.tree) (hr : recv < a.tree.length) : Extends recv a c :=
   ⟨Nat.le_trans h1.len h2.len,
    fun z hz => by rw [h2.parents z (Nat.lt_of_lt_of_le hz h1.len), h1.parents z hz],
    fun _ _ => h2.wf (h1.wf hw hr) (Nat.lt_of_lt_of_le hr h1.len),
-   h1.le.trans h2.le, h2.deferred.trans h1.deferred, h2.hits.trans h1.hits⟩
+   h1.le.trans h2.le, h2.deferred.trans h1.deferred, h2.hits.trans h1.hits,
+   fun n hn => by
+     rcases h2.unwired n hn with h | h
+     · exact h1.unwired n h
+     · exact Or.inr (Nat.le_trans h1.len h)⟩
 
 theorem le_flagIf (s : Dirty.State) (d : Bool) (x : Nat) : Le s (flagIf s d x) := by
   unfold flagIf
@@ -296,7 +305,7 @@ theorem extends_addSubs (recv p : Nat) (sub : List (Kind × Bool)) (ts : TState)
       show p < (addNode ts.tree k p).length
       rw [hlen1]; omega)
     have hl : ts.tree.length + 1 ≤ _ := hlen1 ▸ h1.len
-    refine ⟨⟨Nat.le_trans (Nat.le_succ _) hl, ?_, ?_, ?_, ?_, ?_⟩, ?_⟩
+    refine ⟨⟨Nat.le_trans (Nat.le_succ _) hl, ?_, ?_, ?_, ?_, ?_, ?_⟩, ?_⟩
     · intro z hz
       rw [h1.parents z (by show z < (addNode ts.tree k p).length; rw [hlen1]; omega)]
       exact parentOf_addNode_lt ts.tree k p z hz
@@ -304,6 +313,12 @@ theorem extends_addSubs (recv p : Nat) (sub : List (Kind × Bool)) (ts : TState)
     · exact (le_flagIf ts.s d _).trans h1.le
     · exact h1.deferred
     · exact h1.hits
+    · intro n hn
+      rcases h1.unwired n hn with h | h
+      · exact Or.inl h
+      · exact Or.inr (by
+          have : (addNode ts.tree k p).length ≤ n := h
+          rw [hlen1] at this; omega)
     · intro hw; exact h2 (wf_addNode ts.tree k p hw hp)
 
 theorem extends_addChild (ts : TState) (recv : Nat) (r : Kind) (d : Bool) (sub : List (Kind × Bool)) :
@@ -312,11 +327,12 @@ theorem extends_addChild (ts : TState) (recv : Nat) (r : Kind) (d : Bool) (sub :
   simp only
   have hlen1 : (addNode ts.tree r recv).length = ts.tree.length + 1 := length_addNode _ _ _
   obtain ⟨h1, h2⟩ := extends_addSubs recv ts.tree.length sub
-    { ts with tree := addNode ts.tree r recv, s := flagIf ts.s d ts.tree.length } (by
+    { ts with tree := addNode ts.tree r recv, s := flagIf ts.s d ts.tree.length,
+              unwired := if (r = .layer && held ts.s recv) = true then ts.unwired ++ [ts.tree.length] else ts.unwired } (by
       show ts.tree.length < (addNode ts.tree r recv).length
       rw [hlen1]; omega)
   have hl : ts.tree.length + 1 ≤ _ := hlen1 ▸ h1.len
-  refine ⟨Nat.le_trans (Nat.le_succ _) hl, ?_, ?_, ?_, ?_, ?_⟩
+  refine ⟨Nat.le_trans (Nat.le_succ _) hl, ?_, ?_, ?_, ?_, ?_, ?_⟩
   · intro z hz
     rw [h1.parents z (by show z < (addNode ts.tree r recv).length; rw [hlen1]; omega)]
     exact parentOf_addNode_lt ts.tree r recv z hz
@@ -324,6 +340,18 @@ theorem extends_addChild (ts : TState) (recv : Nat) (r : Kind) (d : Bool) (sub :
   · exact (le_flagIf ts.s d _).trans h1.le
   · exact h1.deferred
   · exact h1.hits
+  · intro n hn
+    rcases h1.unwired n hn with h | h
+    · have h' : n ∈ (if (r = .layer && held ts.s recv) = true then ts.unwired ++ [ts.tree.length] else ts.unwired) := h
+      split at h'
+      · simp only [List.mem_append, List.mem_singleton] at h'
+        rcases h' with h' | h'
+        · exact Or.inl h'
+        · exact Or.inr (by omega)
+      · exact Or.inl h'
+    · exact Or.inr (by
+        have : (addNode ts.tree r recv).length ≤ n := h
+        rw [hlen1] at this; omega)
 
 theorem extends_applyEff (recv : Nat) (ts : TState) (eff : Eff) : Extends recv ts (applyEff recv ts eff) := by
   cases eff with
@@ -337,12 +365,13 @@ theorem extends_applyEff (recv : Nat) (ts : TState) (eff : Eff) : Extends recv t
     simp only [applyEff]
     split
     · rename_i c _
-      exact ⟨by simp [length_markGone], fun z _ => parentOf_markGone _ _ _, fun hw _ => wf_markGone _ _ hw, Le.refl _, rfl, rfl⟩
+      exact ⟨by simp [length_markGone], fun z _ => parentOf_markGone _ _ _, fun hw _ => wf_markGone _ _ hw, Le.refl _, rfl, rfl,
+        fun _ h => Or.inl h⟩
     · exact Extends.refl recv ts
   | removeAll r =>
     simp only [applyEff]
     obtain ⟨h1, h2⟩ := foldl_markGone ts.tree (children ts.tree recv r)
-    refine ⟨by simp [h1], fun z _ => h2 z, ?_, Le.refl _, rfl, rfl⟩
+    refine ⟨by simp [h1], fun z _ => h2 z, ?_, Le.refl _, rfl, rfl, fun _ h => Or.inl h⟩
     intro hw _ x p hp
     rw [h2 x] at hp
     exact hw x p hp
@@ -495,8 +524,10 @@ theorem growsD_relayTo (ts : TState) (ns : List Nat) (tgt : Nat) : GrowsD ts (re
   | cons n r ih =>
     unfold relayTo
     split
-    · exact ⟨⟨rfl, Le.refl _⟩, fun d h => by simp [h]⟩
-    · exact ih ts
+    · exact ⟨⟨rfl, Le.refl _, rfl⟩, fun d h => by simp [h]⟩
+    · split
+      · exact GrowsD.refl ts
+      · exact ih ts
 
 theorem growsD_repost (ts : TState) (d : Deferred) : GrowsD ts (repost ts d) := growsD_relayTo ts d.rest d.target
 
@@ -509,27 +540,30 @@ theorem growsD_foldl {α : Type} (f : TState → α → TState) (hf : ∀ ts a, 
 /-- the relayed write of `tgt` has happened (the chain invariant holds on `c`, the chain of `tgt`), or the notification
 that will cause it waits in the hold of a poster that is still held -/
 def Arrives (ts : TState) (c : List Nat) (tgt : Nat) : Prop :=
-  Inv ts.s c ∨ ∃ d, d ∈ ts.deferred ∧ d.target = tgt ∧ held ts.s d.holder = true
+  Inv ts.s c ∨ ∃ d, d ∈ ts.deferred ∧ d.target = tgt ∧ held ts.s d.holder = true ∧ ∀ n ∈ d.rest, n ∉ ts.unwired
 
 theorem arrives_growsD {a b : TState} (h : GrowsD a b) (c : List Nat) (tgt : Nat) (ha : Arrives a c tgt) : Arrives b c tgt := by
-  rcases ha with hi | ⟨d, hd, ht, hh⟩
+  rcases ha with hi | ⟨d, hd, ht, hh, hu⟩
   · exact Or.inl (inv_grows h.grows c hi)
-  · exact Or.inr ⟨d, h.deferred d hd, ht, by rw [held_le h.grows.le]; exact hh⟩
+  · exact Or.inr ⟨d, h.deferred d hd, ht, by rw [held_le h.grows.le]; exact hh, by rw [h.grows.unwired]; exact hu⟩
 
-theorem arrives_relayTo (ts : TState) (ns : List Nat) (tgt : Nat) (hdis : ∀ a ∈ path ts.tree tgt, a ∉ ts.s.disabled) :
-    Arrives (relayTo ts ns tgt) (path ts.tree tgt) tgt := by
+/-- posted along posters the font listens to, the relayed write happens or waits at a held poster -/
+theorem arrives_relayTo (ts : TState) (ns : List Nat) (tgt : Nat) (hdis : ∀ a ∈ path ts.tree tgt, a ∉ ts.s.disabled)
+    (huw : ∀ n ∈ ns, n ∉ ts.unwired) : Arrives (relayTo ts ns tgt) (path ts.tree tgt) tgt := by
   induction ns generalizing ts with
   | nil => exact Or.inl (inv_touchT ts tgt hdis)
   | cons n r ih =>
     unfold relayTo
     split
     · rename_i hh
-      exact Or.inr ⟨⟨n, r, tgt⟩, by simp, rfl, hh⟩
-    · exact ih ts hdis
+      exact Or.inr ⟨⟨n, r, tgt⟩, by simp, rfl, hh, fun m hm => huw m (by simp [hm])⟩
+    · split
+      · rename_i hn; exact absurd hn (huw n (by simp))
+      · exact ih ts hdis (fun m hm => huw m (by simp [hm]))
 
 /-- a run of re-posts that contains `d` makes the effect of `d` arrive -/
 theorem arrives_foldl_repost (l : List Deferred) (ts : TState) (d : Deferred) (hd : d ∈ l)
-    (hdis : ∀ a ∈ path ts.tree d.target, a ∉ ts.s.disabled) :
+    (hdis : ∀ a ∈ path ts.tree d.target, a ∉ ts.s.disabled) (huw : ∀ n ∈ d.rest, n ∉ ts.unwired) :
     Arrives (l.foldl repost ts) (path ts.tree d.target) d.target := by
   induction l generalizing ts with
   | nil => simp at hd
@@ -537,7 +571,7 @@ theorem arrives_foldl_repost (l : List Deferred) (ts : TState) (d : Deferred) (h
     simp only [List.foldl_cons]
     by_cases h : d = a
     · subst h
-      exact arrives_growsD (growsD_foldl repost growsD_repost r _) _ _ (arrives_relayTo ts d.rest d.target hdis)
+      exact arrives_growsD (growsD_foldl repost growsD_repost r _) _ _ (arrives_relayTo ts d.rest d.target hdis huw)
     · have hr : d ∈ r := by
         simp only [List.mem_cons] at hd
         rcases hd with e | e
@@ -547,7 +581,7 @@ theorem arrives_foldl_repost (l : List Deferred) (ts : TState) (d : Deferred) (h
       have := ih (repost ts a) hr (by
         intro x hx
         rw [hg.tree] at hx
-        rw [hg.le.disabled]; exact hdis x hx)
+        rw [hg.le.disabled]; exact hdis x hx) (by rw [hg.unwired]; exact huw)
       rw [hg.tree] at this
       exact this
 
@@ -579,32 +613,39 @@ theorem held_release_notlast (s : Dirty.State) (x : Nat) (rest : List Nat) (h : 
     simp only [h, if_false]
     exact held_set s x (n - 1) a ((AL.contains_iff_get? _ _).mpr ⟨n, hg⟩)
 
+theorem mem_filter_sub {α : Type} (p : α → Bool) (l : List α) (a : α) (h : a ∈ l.filter p) : a ∈ l :=
+  (List.mem_filter.mp h).1
+
 /-- a release keeps `Arrives`: what waited in the released hold is re-posted, the rest goes on waiting -/
 theorem arrives_releaseT (ts : TState) (hw : WF ts.tree) (tgt x : Nat)
     (hdis : ∀ a ∈ path ts.tree tgt, a ∉ ts.s.disabled) (ha : Arrives ts (path ts.tree tgt) tgt) :
     Arrives (releaseT ts x) (path ts.tree tgt) tgt := by
-  rcases ha with hi | ⟨d, hd, ht, hh⟩
+  rcases ha with hi | ⟨d, hd, ht, hh, hu⟩
   · exact Or.inl (inv_releaseT ts hw tgt x hdis hi)
   · unfold releaseT
     simp only
     by_cases hl : isLastHold ts.s x = true
     · simp only [hl, if_true]
+      -- the font listens to at least the layers it listened to before
+      have hu' : ∀ n ∈ d.rest, n ∉ ts.unwired.filter (fun l => decide (parentOf ts.tree l ≠ some x)) :=
+        fun n hn hmem => hu n hn (mem_filter_sub _ _ n hmem)
       by_cases hx : d.holder = x
       · -- the notification is re-posted now
         have hmine : d ∈ ts.deferred.filter (fun d => d.holder = x) := by
           simp only [List.mem_filter, decide_eq_true_eq]; exact ⟨hd, hx⟩
         have := arrives_foldl_repost (ts.deferred.filter (fun d => d.holder = x))
-          { ts with s := release ts.s x (up ts.tree x), deferred := ts.deferred.filter (fun d => d.holder ≠ x) } d hmine (by
+          { ts with s := release ts.s x (up ts.tree x), deferred := ts.deferred.filter (fun d => d.holder ≠ x),
+                    unwired := ts.unwired.filter (fun l => decide (parentOf ts.tree l ≠ some x)) } d hmine (by
             intro a ha'
             show a ∉ (release ts.s x (up ts.tree x)).disabled
             rw [release_disabled]
             rw [ht] at ha'
-            exact hdis a ha')
+            exact hdis a ha') hu'
         rw [ht] at this
         exact this
       · -- it waits elsewhere
         apply arrives_growsD (growsD_foldl repost growsD_repost _ _)
-        refine Or.inr ⟨d, ?_, ht, ?_⟩
+        refine Or.inr ⟨d, ?_, ht, ?_, hu'⟩
         · show d ∈ ts.deferred.filter (fun d => d.holder ≠ x)
           simp only [List.mem_filter, ne_eq, decide_not, Bool.not_eq_eq_eq_not, Bool.not_true, decide_eq_false_iff_not]
           exact ⟨hd, hx⟩
@@ -615,7 +656,7 @@ theorem arrives_releaseT (ts : TState) (hw : WF ts.tree) (tgt x : Nat)
         · rfl
         · exact absurd h hl
       simp only [hl', Bool.false_eq_true, if_false]
-      refine Or.inr ⟨d, hd, ht, ?_⟩
+      refine Or.inr ⟨d, hd, ht, ?_, hu⟩
       show held (release ts.s x (up ts.tree x)) d.holder = true
       rw [held_release_notlast _ _ _ hl']; exact hh
 
@@ -636,13 +677,36 @@ theorem arrives_releaseAllT (ys : List Nat) (ts : TState) (hw : WF ts.tree) (tgt
 /-- with no hold left, what was to arrive has arrived -/
 theorem arrived_of_no_holds (ts : TState) (c : List Nat) (tgt : Nat) (hh : ts.s.holds = []) (ha : Arrives ts c tgt) :
     ∀ a ∈ c, a ∈ ts.s.dirty ∧ a ∈ ts.s.log := by
-  rcases ha with hi | ⟨d, _, _, hd⟩
+  rcases ha with hi | ⟨d, _, _, hd, _⟩
   · exact all_done_of_no_holds ts.s c hh hi
   · simp [held, AL.contains, hh] at hd
 
 /-- after an effective call of an entry with a relay, the write of `font.lib` arrives -/
+theorem relayNodes_lt (t : Tree) (hw : WF t) (recv : Nat) (hr : recv < t.length) (rel : Relay) (ns : List Nat)
+    (hns : relayNodes t recv rel = some ns) : ∀ n ∈ ns, n < t.length := by
+  intro n hn
+  cases rel with
+  | none => simp [relayNodes] at hns
+  | viaSelf =>
+    simp only [relayNodes, Option.some.injEq] at hns
+    subst hns
+    simp only [List.mem_singleton] at hn
+    omega
+  | viaSelfAndParent =>
+    simp only [relayNodes, Option.some.injEq] at hns
+    subst hns
+    simp only [List.mem_cons] at hn
+    rcases hn with rfl | hn
+    · exact hr
+    · cases hp : parentOf t recv with
+      | none => simp [hp] at hn
+      | some p =>
+        simp only [hp, Option.toList_some, List.mem_singleton] at hn
+        have := hw recv p hp
+        omega
+
 theorem arrives_applyEffective (ts : TState) (recv : Nat) (e : Entry) (hw : WF ts.tree) (hr : recv < ts.tree.length)
-    (ns : List Nat) (hns : relayNodes ts.tree recv e.relay = some ns)
+    (ns : List Nat) (hns : relayNodes ts.tree recv e.relay = some ns) (huw : ∀ n ∈ ns, n ∉ ts.unwired)
     (l : Nat) (hl : l ∈ fontLib ts.tree recv) (hdis : ∀ a ∈ path ts.tree l, a ∉ ts.s.disabled) :
     Arrives (applyEffective ts recv e) (path ts.tree l) l := by
   have hext := extends_effs recv e.effs ts hw hr
@@ -652,14 +716,21 @@ theorem arrives_applyEffective (ts : TState) (recv : Nat) (e : Entry) (hw : WF t
   simp only [hns]
   -- the state before the relays are posted
   have hg := grows_foldl touchT grows_touchT (directTargets ts.tree recv e) (e.effs.foldl (applyEff recv) ts)
+  -- the posters are old nodes: no tree effect makes the font deaf to them
+  have huw' : ∀ n ∈ ns, n ∉ (e.effs.foldl (applyEff recv) ts).unwired := by
+    intro n hn hmem
+    rcases hext.unwired n hmem with h | h
+    · exact huw n hn h
+    · have := relayNodes_lt ts.tree hw recv hr e.relay ns hns n hn
+      omega
   have key : ∀ (libs : List Nat) (st : TState), st.tree = (e.effs.foldl (applyEff recv) ts).tree →
-      st.s.disabled = ts.s.disabled → l ∈ libs →
+      st.s.disabled = ts.s.disabled → (∀ n ∈ ns, n ∉ st.unwired) → l ∈ libs →
       Arrives (libs.foldl (fun a l => relayTo a ns l) st) (path ts.tree l) l := by
     intro libs
     induction libs with
-    | nil => intro st _ _ h; simp at h
+    | nil => intro st _ _ _ h; simp at h
     | cons a r ih =>
-      intro st htree hdisab hmem
+      intro st htree hdisab hst hmem
       simp only [List.foldl_cons]
       by_cases h : l = a
       · subst h
@@ -667,7 +738,7 @@ theorem arrives_applyEffective (ts : TState) (recv : Nat) (e : Entry) (hw : WF t
         have := arrives_relayTo st ns l (by
           intro x hx
           rw [htree, hpath] at hx
-          rw [hdisab]; exact hdis x hx)
+          rw [hdisab]; exact hdis x hx) hst
         rw [htree, hpath] at this
         exact this
       · have hr' : l ∈ r := by
@@ -676,8 +747,10 @@ theorem arrives_applyEffective (ts : TState) (recv : Nat) (e : Entry) (hw : WF t
           · exact absurd e' h
           · exact e'
         have hgr := grows_relayTo st ns a
-        exact ih (relayTo st ns a) (by rw [hgr.tree]; exact htree) (by rw [hgr.le.disabled]; exact hdisab) hr'
-  exact key (fontLib ts.tree recv) _ hg.tree (by rw [hg.le.disabled]; exact hext.le.disabled) hl
+        exact ih (relayTo st ns a) (by rw [hgr.tree]; exact htree) (by rw [hgr.le.disabled]; exact hdisab)
+          (by rw [hgr.unwired]; exact hst) hr'
+  exact key (fontLib ts.tree recv) _ hg.tree (by rw [hg.le.disabled]; exact hext.le.disabled)
+    (by rw [hg.unwired]; exact huw') hl
 
 end DirtyTree
 end DefconModel
